@@ -4,7 +4,8 @@
    executable forms of the property: Model/FocusCheck.v. *)
 From Coq Require Import List ZArith NArith String Bool.
 From SCC Require Import Lang.CoreSyn Model.Backend Model.Uniquify Model.Focus Model.FocusCheck
-     Sem.AxSem Sem.CoreSem Proof.SubstProof Proof.FocusTheorems Proof.FocusExtra Proof.FocusExamples Proof.FocusSem.
+     Sem.AxSem Sem.CoreSem Proof.SubstProof Proof.FocusTheorems Proof.FocusExtra Proof.FocusExamples Proof.FocusSem
+     Proof.FocusKont Proof.FocusRel Proof.FocusSim Proof.FocusRun Proof.FocusFrag Proof.FocusPres Proof.FocusPresExamples.
 Import ListNotations.
 
 (* ---- uniqueness of binders -------------------------------------------------------------------
@@ -125,3 +126,83 @@ Theorem C03_focus_preserves_partial :
       run_fs fuel q args = run_core fuel p args /\ snd (run_core fuel p args) <> OOutOfFuel.
 Proof. exact focus_preserves_straight_line. Qed.
 Print Assumptions C03_focus_preserves_partial.
+
+(* ---- semantic preservation, round 2 ---------------------------------------------------------------
+   A simulation between the Core machine on a program whose identifiers are all <= max_id (what
+   `uniquify` returns) and the same machine on the embedding of its focused form (run_fs).
+   Relation (Proof/FocusRel.v): values component-wise; a closure over code s is related to the closure
+   over `focus s`; the machine-internal continuation values have no homomorphic image, focusing turns
+   them into code:  KRet m ~ mu~-closure over the statement `bind`'s continuation built,
+   PDelay m ~ by-name thunk over it;  target environment = source environment + the fresh bindings.
+   Each source transition is matched by zero or more target transitions (Proof/FocusMain.v sim_step:
+   every constructor of the language, every arm of Cut::focus, every Bind impl).
+
+   KIND CLASH (Proof/FocusSim.v clash_config): the untyped machine lets a by-name producer value
+   (PThunk/PDelay/a mu at a codata cut) meet a by-value return continuation (KRet); the two machines
+   treat that differently (after focusing KRet is a mu~-closure, which the machine serves before it
+   forces a thunk).  Typing excludes it (KRet comes from a mu of a NON-codata type, by-name values have
+   codata types) but the framework has no Core type system, so the theorems take either
+     - the run-time hypothesis clash_free (no such configuration in the first `fuel` transitions), or
+     - the static guard sg_prog bn kr with bn && kr = false (Proof/FocusFrag.v):
+         sg_prog false _ : no mu-abstraction of a codata type in an argument position, no cut at a
+                           codata type whose producer is a mu  (then no by-name value ever exists);
+         sg_prog _ false : no producer mu-abstraction of a non-codata type in an argument position
+                           (then no KRet ever exists).
+   Everything else of the language is covered: operators nested to any depth with effects in the
+   operands, constructor/destructor/call/ifc/print/exit arguments, mu/mu~, case/cocase, calls,
+   recursion, data and codata values. *)
+
+(* `Bind` as a lemma of its own: [bind a k] first evaluates the argument a exactly as the machine does
+   (innermost non-values first, left to right, each once), then behaves as what k builds for the name
+   of the value - provided k is the code of the machine continuation m (mk_rel). *)
+Theorem C03_bind_correct :
+  forall ps qt M0, focused_defs M0 ps qt ->
+  forall a k c mc s' m2 e e' m fuel out,
+    bind_arg a k mc = Ok (s', m2) -> (M0 <= c)%N -> (c <= mc)%N -> ids_le_arg M0 a = true ->
+    env_rel ps M0 e e' -> mk_rel ps M0 c m k e' ->
+    clash_free ps fuel (Arg a e m) = true -> good_end (snd (crun fuel ps (Arg a e m) out)) ->
+    exists fuel', crun fuel' qt (Run (fs2c_stmt s') e') out = crun fuel ps (Arg a e m) out.
+Proof. exact bind_correct. Qed.
+Print Assumptions C03_bind_correct.
+
+(* statements (every arm of Cut::focus, IfC, Call, PrintI64, Exit) *)
+Theorem C03_focus_stmt_correct :
+  forall ps qt M0, focused_defs M0 ps qt ->
+  forall s mc s' m2 e e' fuel out,
+    focus_stmt s mc = Ok (s', m2) -> (M0 <= mc)%N -> ids_le_stmt M0 s = true -> env_rel ps M0 e e' ->
+    clash_free ps fuel (Run s e) = true -> good_end (snd (crun fuel ps (Run s e) out)) ->
+    exists fuel', crun fuel' qt (Run (fs2c_stmt s') e') out = crun fuel ps (Run s e) out.
+Proof. exact focus_stmt_correct. Qed.
+Print Assumptions C03_focus_stmt_correct.
+
+(* Prog::focus = uniquify, then focus: the focused program reproduces every defined run (exit value or
+   undefined arithmetic, prints in order) of the UNIQUIFIED program p1 that meets no kind clash.
+   Gap to C03_focus_preserves_statement: the clash hypothesis (typing), and run_core p1 = run_core p
+   (C03_uniquify_preserves below). *)
+Theorem C03_focus_preserves_uniquified_partial :
+  forall p p1 q args fuel,
+    pre_check p = true -> focus_wf p = true -> uniquify_prog p = Ok p1 -> focus_prog p = Ok q ->
+    clash_free_prog fuel p1 args = true -> good_end (snd (run_core fuel p1 args)) ->
+    exists fuel', run_fs fuel' q args = run_core fuel p1 args.
+Proof. exact focus_prog_preserves_uniquified. Qed.
+Print Assumptions C03_focus_preserves_uniquified_partial.
+
+(* the same with the static guard in place of the run-time hypothesis *)
+Theorem C03_focus_preserves_guarded_partial :
+  forall bn kr p p1 q args fuel,
+    pre_check p = true -> focus_wf p = true -> uniquify_prog p = Ok p1 -> focus_prog p = Ok q ->
+    bn && kr = false -> sg_prog bn kr p1 = true ->
+    good_end (snd (run_core fuel p1 args)) ->
+    exists fuel', run_fs fuel' q args = run_core fuel p1 args.
+Proof. exact focus_prog_preserves_guarded. Qed.
+Print Assumptions C03_focus_preserves_guarded_partial.
+
+(* the hypotheses are satisfiable by non-trivial programs: nested effectful operands whose print order
+   1 2 3 is observable; effectful constructor and call arguments with a case; the fun2core output of
+   examples/Lists/Lists.sc (guard "no by-name value", both programs run to the same exit) *)
+Theorem C03_focus_preserves_nonvacuous :
+  checks ex_order false true 100 200 [] ([(false, 1); (false, 2); (false, 3)], OExit 70)%Z = true /\
+  checks ex_data false true 100 300 [] ([(false, 1); (false, 2); (false, 3); (true, 1)], OExit 1)%Z = true /\
+  checks_str ex_lists (100 * 50) (100 * 200) = true.
+Proof. exact (conj ex_order_ok (conj ex_data_ok ex_lists_ok)). Qed.
+Print Assumptions C03_focus_preserves_nonvacuous.
